@@ -6,15 +6,15 @@
 # Writes /tmp/seedv/result_<id>_<k>.txt ; the worktree and its build output are removed at the end.
 set -u
 W="$1"; shift
-WT=/tmp/seedv/wt$W
-mkdir -p /tmp/seedv
+WT=${OUTDIR:-/tmp/seedv}/wt$W
+mkdir -p ${OUTDIR:-/tmp/seedv}
 git -C /repo worktree add -q --detach "$WT" HEAD 2>/dev/null || true
 cp /repo/Cargo.lock "$WT"/ 2>/dev/null
 export CARGO_NET_OFFLINE=true
 for item in "$@"; do
   id="${item%_*}"; k="${item#*_}"
-  P=/tmp/seed/$id/out/patch_$k.diff; D=/tmp/seed/$id/out/demo_$k.rs
-  R=/tmp/seedv/result_${id}_$k.txt
+  P=${SEEDDIR:-/tmp/seed}/$id/out/patch_$k.diff; D=${SEEDDIR:-/tmp/seed}/$id/out/demo_$k.rs
+  R=${OUTDIR:-/tmp/seedv}/result_${id}_$k.txt
   cd "$WT"; git checkout -q -- . ; rm -rf tests
   { echo "mutant $id #$k";
     if ! git apply "$P"; then echo "APPLY_FAILED"; continue; fi
